@@ -44,9 +44,17 @@ type chunkReader struct {
 	chunk  int
 	failAt int // -1 = never
 	read   int
+	// ctx: the context of the request that produced this body; as over a real HTTP transport, the
+	// body can only be read while that context is live
+	ctx aws.Context
 }
 
 func (c *chunkReader) Read(p []byte) (int, error) {
+	if c.ctx != nil {
+		if err := c.ctx.Err(); err != nil {
+			return 0, err
+		}
+	}
 	if c.failAt >= 0 && c.read >= c.failAt {
 		return 0, errors.New("injected S3 body failure")
 	}
@@ -101,7 +109,7 @@ func (f *fakeS3) GetObjectWithContext(ctx aws.Context, in *s3.GetObjectInput, _ 
 	f.gets++
 	fb := f.failBody
 	f.failBody = -1
-	out := &s3.GetObjectOutput{Body: &chunkReader{b: b, chunk: []int{1, 3, 7, 512, 1 << 20}[f.gets%5], failAt: fb}}
+	out := &s3.GetObjectOutput{Body: &chunkReader{b: b, chunk: []int{1, 3, 7, 512, 1 << 20}[f.gets%5], failAt: fb, ctx: ctx}}
 	if f.gets%3 != 0 { // an answer need not carry a Content-Length (chunked transfer, hand-written clients)
 		cl := int64(len(b))
 		out.ContentLength = &cl
